@@ -175,6 +175,10 @@ func evalC09(c c09Case, o *Obs) error {
 	m := newRefBloom(c.Len, c.K, c.Tweak, c.Flags)
 	var inserted [][]byte
 	sawInsert, sawQueryAfter := false, false
+	// a sibling filter with other parameters is used in between: filters must not share state
+	gLen, gK, gTweak := c.Len%61+1, (c.K+7)%51, c.Tweak^0x5a5a5a5a
+	g := bloom.LoadFilter(wire.NewMsgFilterLoad(make([]byte, gLen), gK, gTweak, wire.BloomUpdateAll))
+	mg := newRefBloom(gLen, gK, gTweak, 1)
 	o.Class("C09:len-class=%s", lenClass(c.Len))
 	if c.K == 0 {
 		o.Class("C09:k=0")
@@ -243,6 +247,20 @@ func evalC09(c c09Case, o *Obs) error {
 			o.Class("C09:reload")
 		default:
 			return hbug("unknown op %q", op.Op)
+		}
+		// the sibling gets a related operation
+		if len(op.Data) > 0 || op.Op == "add" {
+			sd := append([]byte{byte(step)}, op.Data...)
+			if step%3 == 0 {
+				g.Add(sd)
+				mg.add(sd)
+			} else if g.Matches(sd) != mg.has(sd) {
+				return fmt.Errorf("%s: sibling filter(len=%d,k=%d) answers Matches(%x) differently from its model", where, gLen, gK, sd)
+			}
+			if !bytes.Equal(g.MsgFilterLoad().Filter, mg.bits) {
+				return fmt.Errorf("%s: sibling filter(len=%d,k=%d) bit array %x differs from its model %x (state shared between filters?)",
+					where, gLen, gK, clip(g.MsgFilterLoad().Filter), clip(mg.bits))
+			}
 		}
 		// invariants after every step
 		if f.IsLoaded() != m.loaded {
